@@ -30,6 +30,11 @@ if cfg["caught"] == "sysexit1":
         sys.exit(1)
     except SystemExit:
         pass
+elif cfg["caught"] == "sysexit0":
+    try:
+        sys.exit(0)
+    except SystemExit:
+        pass
 elif cfg["caught"] == "exception":
     try:
         raise ValueError("handled")
